@@ -15,19 +15,20 @@ import (
 
 // GameMove records one engine move of a simulated clocked game.
 type GameMove struct {
-	Ply        int    `json:"ply"`
-	Fen        string `json:"fen"`
-	Go         string `json:"go"`
-	RemainMs   int64  `json:"remain_ms"`   // mover's clock when go was sent
-	IncMs      int64  `json:"inc_ms"`      //
-	MovesToGo  int    `json:"movestogo"`   //
-	AllottedNs int64  `json:"allotted_ns"` // engine's own budget for this go (H9), -1 if not taken
-	ElapsedNs  int64  `json:"elapsed_ns"`  // go (or ponderhit) -> bestmove
-	Best       string `json:"best"`
-	ByTimer    bool   `json:"by_timer"` // the search was ended by its own timer
-	Pondered   string `json:"pondered,omitempty"`
-	Hit        bool   `json:"hit,omitempty"`
-	MoveTimeMs int64  `json:"movetime_ms,omitempty"`
+	Ply         int      `json:"ply"`
+	Fen         string   `json:"fen"`
+	Go          string   `json:"go"`
+	RemainMs    int64    `json:"remain_ms"`   // mover's clock when go was sent
+	IncMs       int64    `json:"inc_ms"`      //
+	MovesToGo   int      `json:"movestogo"`   //
+	AllottedNs  int64    `json:"allotted_ns"` // engine's own budget for this go (H9), -1 if not taken
+	ElapsedNs   int64    `json:"elapsed_ns"`  // go (or ponderhit) -> bestmove
+	Best        string   `json:"best"`
+	ByTimer     bool     `json:"by_timer"` // the search was ended by its own timer
+	Pondered    string   `json:"pondered,omitempty"`
+	Hit         bool     `json:"hit,omitempty"`
+	MoveTimeMs  int64    `json:"movetime_ms,omitempty"`
+	SearchMoves []string `json:"searchmoves,omitempty"`
 }
 
 // GameOut is what the clock oracles work on.
@@ -234,6 +235,15 @@ func RunGame(sc *Scenario) *GameOut {
 			gl = fmt.Sprintf("go movetime %d", g.MoveTimeMs)
 			gm.Go, gm.MoveTimeMs = gl, g.MoveTimeMs
 		}
+		if len(legal) > 2 && rng.Intn(100) < 12 {
+			// the GUI restricts the root moves (also while the engine is in its book)
+			k := rng.Range(1, min(3, len(legal)-1))
+			for _, ix := range permK(rng, len(legal), k) {
+				gm.SearchMoves = append(gm.SearchMoves, legal[ix].String())
+			}
+			gl += " searchmoves " + strings.Join(gm.SearchMoves, " ")
+			gm.Go = gl
+		}
 		if us.Plain && g.MoveTimeMs == 0 {
 			if b, err := TimeBudget(pos.Fen(), l); err == nil {
 				gm.AllottedNs = int64(b)
@@ -379,6 +389,20 @@ func CheckGame(sc *Scenario, out *GameOut, res *RunResult) {
 			// allowance: 10 fake ms plus the fake cost of 500 stop checks for unwinding
 			if m.ElapsedNs > remainNs+moveTimeSlackNs+500*int64(sc.Cost.BaseNs+sc.Cost.JitterNs) {
 				res.addViolation("C13", "flagged", fmt.Sprintf("%q on %s: bestmove after %d ms with %d ms on the clock", m.Go, m.Fen, m.ElapsedNs/1_000_000, m.RemainMs))
+			}
+		}
+	}
+	for _, m := range out.Moves {
+		if len(m.SearchMoves) > 0 && m.Best != "" {
+			res.count("searchmoves_samples", 1)
+			found := false
+			for _, x := range m.SearchMoves {
+				if strings.EqualFold(x, m.Best) {
+					found = true
+				}
+			}
+			if !found {
+				res.addViolation("C13", "searchmoves_ignored", fmt.Sprintf("%q on %s: bestmove %s not in list", m.Go, m.Fen, m.Best))
 			}
 		}
 	}
